@@ -1,7 +1,8 @@
 prop("C25",
      theorems=["NeoFS.Put.put_ok_implies_acks", "NeoFS.Put.put_ok_implies_policy_copies", "NeoFS.Put.put_fails_when_impossible",
                "NeoFS.Put.put_ok_capped", "NeoFS.Put.broadcast_ok_implies_acks", "NeoFS.Put.ecpart_ok_implies_ack", "NeoFS.Put.applyEC_sound",
-               "NeoFS.Put.handleREP_sound", "NeoFS.Put.duplicate_in_list_counts_twice"],
+               "NeoFS.Put.handleREP_sound", "NeoFS.Put.duplicate_in_list_counts_twice",
+               "NeoFS.Put.applyEC_node_holds_one_part"],
      engines=[dict(name="put", quick=1, thorough=1)],
      lean_modules=["NeoFS.Props.C25"],
      claim="Lean theorems over Model/Put.lean (handleREPRule/repProgress, iterateNodesForObject, the rule loop of saveObject with replica "
@@ -24,7 +25,14 @@ prop("C25",
            "acknowledgements. NOT proved, only exercised by the run and its oracle: that the PreferLocal order is the one the code computes "
            "(modelled as the insertion-sort behaviour of slices.SortFunc under the code's inconsistent comparator; the capped theorem holds "
            "for whatever order) and the schedule-independence of the EC verdict (the driver runs a seeded schedule, "
-           "the implementation its own). Three genuine defects were found by this check and repaired (fix: commits): index panic in REP+EC "
+           "the implementation its own). (7) In ANY run of applyECRule, successful or not, under every interleaving, a node "
+           "acknowledges parts of one rule for one part only (applyEC_node_holds_one_part). The interleavings of the EC part routines "
+           "are FORCED on the real ecProgress by op ecrace: hook points (verifhook.PointN) before every canTryNode and at the start of "
+           "applyECRule let the engine (a) make the refusing first nodes of several parts answer at the same moment and (b) hold the "
+           "first routine that is about to reserve node #i until a second routine goes for the same node, then release both at one "
+           "instant; the case is repeated (30-60 trials per op), every trial must give the model's verdict (the model runs the "
+           "lock-step schedule; any other verdict is printed as interleaving-dependent) and meet the oracles "
+           "ec-rule-parts-on-distinct-nodes-of-its-list and ec-node-reserved-by-one-part-of-a-rule. Three genuine defects were found by this check and repaired (fix: commits): index panic in REP+EC "
            "containers, repeated EC rules placed on the first equal rule's nodes / skipped, failed EC rule tolerated against the wrong suffix.",
      note="Trusted: Lean kernel; hand model Model/Put.lean tied by correspondence only; answers are a function of (object, node) — every real "
           "execution is one because a node is asked at most once per object (oracle assertion node-asked-once-per-object); each send's result is "
@@ -33,7 +41,8 @@ prop("C25",
           "are outside the model; the netmap's placement vectors are assumed duplicate-free inside one vector.",
      rule="quick: ~700 REP placements (1-3 vectors x 1-6 nodes of a 7-node universe x copies 1-4 x 4 object types x local node anywhere, every 5th "
           "with ALL 2^n failure tables of the nodes in use), ~500 EC / REP+EC / broadcast-in-EC-container / ready-EC-part cases (5 rules, repeated "
-          "rules, lists shorter than the rule), ~600 initial-policy cases (limits, MaxReplicas, PreferLocal); thorough x25; non-trivial = at "
+          "rules, lists shorter than the rule), ~600 initial-policy cases (limits, MaxReplicas, PreferLocal), 80 EC cases x 40 trials with forced contention on reserve nodes "
+          "(two or more first nodes refusing at once) + corpus/put/ec-race.ops; thorough x25; non-trivial = at "
           "least two sends and at least one failing node; distinct by op",
      trusted=["Model/Put.lean is a hand transcription of distributed.go / ec.go (tied by the correspondence run through export_verif_c25.go)",
               "slices.SortFunc sorts <= 12 elements by insertion sort (PreferLocal rule order)"],
